@@ -96,6 +96,7 @@ inductive Exc | update | delete | parse | key | attr
 inductive Res (V : Type) where
   | ok (ret : Option V)
   | err (e : Exc)
+  deriving DecidableEq
 
 inductive Op (V : Type) where
   | setattr (a : String) (v : V)
